@@ -188,6 +188,32 @@ def j_rules(P, E):
             if Effects.path_avoiding(rsg, [c.bb], subs) is not None:
                 r.violate(("J6", rsg.nid, "action before subscribe"),
                           "ready_set_go runs its action before subscribing: everything the action emits is missed", body=rsg, line=c.line)
+    # J7: the replay itself runs under the history guard (this is what excludes a concurrent push:
+    # ReplaySubject::next appends under the write guard of `items` before it broadcasts)
+    ro_ = P.body("subjects::replay_subject::ReplaySubject::observable")
+    if ro_ is not None:
+        act = [b for b in P.descendants(ro_) if "ACTION" in E.role_of(b.id)]
+        if not act:
+            r.error("J7: replay action closure not found")
+        for b in act:
+            ia, held, _ = _acq_field(P, b, "items")
+            emits = []
+            for c in b.calls:
+                if c.path == "std::iter::Iterator::for_each":
+                    for t in E.inline_targets(c):
+                        if any(atom(x) == "obs_next" for x in t.calls):
+                            emits.append(c)
+                elif atom(c) == "obs_next":
+                    emits.append(c)
+            r.instance(("J7", b.nid), True, "history guards %s, replay emissions %s" % (list(ia), [c.bb for c in emits]))
+            if not emits:
+                r.violate(("J7", b.nid, "history not replayed"), "ReplaySubject::observable does not replay the stored items", body=b)
+            for c in emits:
+                if not (held.get(c.bb, set()) & set(ia)):
+                    r.violate(("J7", b.nid, "replay outside the history guard"),
+                              "the history is replayed without holding the `items` guard: a push from another thread (append "
+                              "under the write guard, then broadcast) lands in the middle of the replay - the late subscriber "
+                              "sees it before older items", body=b, line=c.line)
     # ReplaySubject::observable uses ready_set_go with the live subject
     ro = P.body("subjects::replay_subject::ReplaySubject::observable")
     if ro is not None:
